@@ -489,6 +489,26 @@ theorem group_start_only_misses_later_tests (g : Nat) (t1 t2 : TestScript) (h : 
   have hh : ¬ (runSeparate t1).ended = .starved := h
   simp [runRegistryFrom, sepFlag, endOfGroup, hh, runInRunnerAt, runResultAt, RunState.init]
 
+/-- **`-p` anywhere on the command line switches separate-process mode on, whatever other
+    switches are given with it** (the statement list of `initializeTestRun` is regenerated: an
+    `else` coupling `-p` to another switch falsifies this) -/
+theorem dash_p_switches_separate_mode_on (v vv c ri f : Bool) :
+    separateModeOn { verbose := v, veryVerbose := vv, color := c, separateProcess := true,
+                     runIgnored := ri, crashOnFail := f } = true := by
+  revert v vv c ri f; decide
+
+/-- … and then every test is forked, none runs inside the runner -/
+theorem dash_p_forks_every_test (a : CliArgs) (ts : List RegTest) (h : a.separateProcess = true) :
+    runCommandLine a ts = runAll (ts.map (·.script)) ∧ (runCommandLine a ts).inRunner = [] := by
+  have hon : separateModeOn a = true := by
+    cases a with
+    | mk v vv c p ri f => simp at h; subst h; exact dash_p_switches_separate_mode_on v vv c ri f
+  unfold runCommandLine; rw [hon]; simp only [if_true]
+  exact registry_forks_every_test ts
+
+/-- no statement of `initializeTestRun` is coupled to the one before it by `else` -/
+theorem init_statements_independent : initStatements.all (fun s => !s.isElse) = true := by decide
+
 /-! ## the build without fork / waitpid / kill -/
 
 /-- **No fork on this platform:** `-p` cannot work; every test run in separate-process mode is
